@@ -52,6 +52,8 @@ type World struct {
 	Faults []*Fault
 	Start  time.Time
 	Mute   bool // do not log reads (keeps long runs small)
+	BlipFrom, BlipTo time.Time // latency blip (see inBlipLocked)
+	BlipLat          time.Duration
 	OnStmt func(host, op, arg string) // hook called (without lock) before a statement is executed
 	OnDcs  func(client, op, path, res string) // hook called WITH the lock held when a coordination call is logged
 	// cluster simulation: which mysync dials (by the port it uses), which machine pairs cannot talk
@@ -268,6 +270,7 @@ type MyNode struct {
 	TotalConns                       int
 	Killed                           []int
 	SrcLostAt                        time.Time // when the replication link to the source stopped working (NetTimeout > 0)
+	Latency                          time.Duration // every statement takes this long to arrive
 	Slow                             int       // > 0: replication moves only every Slow-th Replicate() round (lagging replica)
 	PendingTx                        []int     // indexes into World.Acked of client commits waiting for a semi-sync ACK (sessions still connected)
 }
@@ -349,6 +352,22 @@ func (w *World) ClearFaults() {
 	w.Mu.Lock()
 	w.Faults = nil
 	w.Mu.Unlock()
+}
+
+// A latency blip: every statement and every coordination call ISSUED inside [BlipFrom, BlipTo) takes BlipLat to arrive.
+func (w *World) inBlipLocked() bool {
+	now := time.Now()
+	return w.BlipLat > 0 && !now.Before(w.BlipFrom) && now.Before(w.BlipTo)
+}
+
+// BlipSleep is called by the coordination fake before an operation (lock NOT held).
+func (w *World) BlipSleep() {
+	w.Mu.Lock()
+	in, lat := w.inBlipLocked(), w.BlipLat
+	w.Mu.Unlock()
+	if in {
+		time.Sleep(lat)
+	}
 }
 
 // matchFault must be called with the lock held.
@@ -791,6 +810,20 @@ func (w *World) query(n *MyNode, p *pconn, q string, done chan struct{}) bool {
 			return p.resultset([]string{"MajorVersion", "MinorVersion", "PatchVersion"}, [][]string{{"8", "0", "36"}}) == nil
 		}
 		return p.ok() == nil
+	}
+	lat := n.Latency
+	if w.inBlipLocked() && w.BlipLat > lat {
+		lat = w.BlipLat
+	}
+	if lat > 0 {
+		// a slow server / network: the statement arrives (and takes effect) only after the latency has passed
+		w.Mu.Unlock()
+		select {
+		case <-time.After(lat):
+		case <-done:
+			return false
+		}
+		w.Mu.Lock()
 	}
 	mode := w.matchFault(n.Host, op)
 	if (n.Hang || w.Blocked(p.from, n.Host) || w.DeadProcs[p.from]) && mode == "" {
